@@ -13,6 +13,9 @@ from .. import attrs_common as AC
 
 NAMES = ['foo', 'data-x', 'checked', 'id', 'FOO', 'a b']                   # plain, data-*, boolean, linked, upper-case, invalid
 VALUES = ['v', '', 'say "hi"', 'a b  c', '42', 'é☃']              # plain, empty, quote, spaces, numeric, non-ASCII
+# random histories only: values with white space of `str.isspace()` beyond ASCII / C's isspace, leading, trailing, inner (an ordinary
+# attribute keeps its value as it is; class / style strip it at the ends)
+UNI_VALUES = ['\xa0v', 'v\u3000', 'a\xa0b', '\u2003a b\x1c', '\x85']
 KEYS = ['foo', 'data-x', 'checked', 'id', 'FOO', 'Id', 'a b', 'zz']         # keys the per-key views are asked about
 COPY_VIEWS = ['clone', 'copy', 'deepcopy', 'pickle', 'repr']
 
@@ -168,7 +171,8 @@ class Check(PropCheck):
                  [['checked', None], ['hidden', ''], ['value', 'é☃'], ['_u', '']],
                  [['id', 'x'], ['class', 'k'], ['title', ''], ['style', 'color: red'], ['name', 'n']],
                  [['data-x', None], ['data-x', 'v']],
-                 [['spellcheck', 'FALSE'], ['tabindex', '3']]]
+                 [['spellcheck', 'FALSE'], ['tabindex', '3']],
+                 [['foo', '\xa0v\u3000'], ['class', '\xa0k l\x1c'], ['style', '\u2003color\xa0: red\x85;'], ['id', 'a\xa0b']]]
         for attrs in inits:
             for how in ('direct', 'parsed', 'clone', 'copy', 'deepcopy', 'pickle'):
                 tag = 'div' if how == 'pickle' else 'input'
@@ -198,7 +202,7 @@ class Check(PropCheck):
             nm = rng.choice(names)
             if rng.random() < 0.15:
                 nm = nm.upper() if rng.random() < 0.5 else nm.capitalize()
-            val = rng.choice(VALUES + [None, 'true', 'False', '0', 'MiXed Case'])
+            val = rng.choice(VALUES + [None, 'true', 'False', '0', 'MiXed Case'] + UNI_VALUES)
             if r < 0.22:
                 it = ['sa', nm, val]
             elif r < 0.40:
@@ -222,15 +226,17 @@ class Check(PropCheck):
                 it = ['sas', [[x, rng.choice(VALUES + [None])] for x in ns]]
             elif r < 0.90:
                 it = rng.choice((['cn', 'a b'], ['ac', 'c'], ['rc', 'a'], ['sa', 'class', 'k'], ['ra', 'class'], ['st', 'color: red'],
-                                 ['ss', 'display', 'block'], ['sa', 'style', 'float: left'], ['ra', 'style'], ['sd', 'color', '']))
+                                 ['ss', 'display', 'block'], ['sa', 'style', 'float: left'], ['ra', 'style'], ['sd', 'color', ''],
+                                 ['cn', '\xa0a b\u3000'], ['sa', 'class', 'k\xa0l \x1c'], ['ac', '\u2003c'],
+                                 ['sa', 'style', '\xa0float\u3000:\x85left ;\x1c'], ['st', 'color:\u2003red\xa0']))
             else:
                 it = ['read', rng.choice((['keys'], ['items'], ['startTag'], ['list'], ['get', nm], ['attr', nm], ['clone'],
                                           ['domkeys'], ['item', nm], ['has', nm]))]
             hist.append(it)
         attrs = []
         for _ in range(rng.choice((0, 0, 1, 2, 4))):
-            attrs.append([rng.choice(names + ['class', 'style']), rng.choice(VALUES + [None])])
-        attrs = [[a, (v if a != 'style' else 'color: red')] for a, v in attrs]
+            attrs.append([rng.choice(names + ['class', 'style']), rng.choice(VALUES + [None] + UNI_VALUES)])
+        attrs = [[a, (v if a != 'style' else rng.choice(('color: red', '\xa0color\u3000: red\x85')))] for a, v in attrs]
         how = rng.choice(('direct', 'direct', 'parsed', 'parsed', 'clone', 'copy', 'deepcopy', 'pickle'))
         cv = rng.choice(COPY_VIEWS)
         if AC.is_void(tag) and (how == 'pickle' or cv == 'pickle'):
